@@ -340,6 +340,8 @@ func (v *Verifier) callFn(st *State, in *ssa.Call, fn *ssa.Function, bindings []
 		useContract = false
 	}
 	if useContract {
+		v.calleeBindings = bindings
+		defer func() { v.calleeBindings = nil }()
 		return v.applyContract(st, in, c, fn, fn.Signature, args)
 	}
 	if isRecursive(fn, st.frames) {
@@ -385,12 +387,29 @@ func (v *Verifier) applyContract(st *State, in *ssa.Call, c *Contract, fn *ssa.F
 	c.Used = true
 	site := fmt.Sprintf("%s>%s@%d", v.fnLabel(st), strings.TrimPrefix(c.Key, "iface:"), siteOrdinal(in))
 	env := &SpecEnv{v: v, st: st, pkg: c.Pkg.Types, vars: map[string]SVal{}}
+	if fn != nil && len(fn.FreeVars) > 0 && len(v.calleeBindings) == len(fn.FreeVars) && fn.Blocks != nil {
+		// a closure: the names of the variables it captured denote those variables (through the closure's bindings)
+		env.fr = &Frame{fn: fn, block: fn.Blocks[0], bindings: v.calleeBindings, visits: map[int]int{}, cuts: map[int]*cutInfo{}}
+	}
+	v.calleeBindings = nil
 	names, tys := contractParams(c, fn, sig)
 	if len(names) != len(args) {
 		unsup("contract %s: %d parameter names for %d arguments", c.Key, len(names), len(args))
 	}
 	for i, n := range names {
 		env.vars[n] = SVal{args[i], tys[i]}
+	}
+	if fn != nil && fn.Blocks != nil {
+		// parameters the compiler left unnamed (the element variable of a range-over-func body) go by the
+		// name the source gives them
+		dn := debugNames(fn)
+		for i, p := range fn.Params {
+			if src, ok := dn[p]; ok && i < len(args) {
+				if _, taken := env.vars[src]; !taken {
+					env.vars[src] = SVal{args[i], tys[i]}
+				}
+			}
+		}
 	}
 	for i, r := range c.Requires {
 		g := env.evalBool(r.Expr)
